@@ -326,6 +326,120 @@ fn replay(m: &mut Monitor, env: &Env, t: &Traced, per_name_budget: &mut BTreeMap
     }
 }
 
+
+/// Additional positive scenarios (each instruction at least once, failures ignored: they only cost
+/// coverage). Uses a dedicated world so that toggles do not disturb the exchange workload.
+fn extra_scenarios(seed: u64, shard: u64) -> (Env, Vec<Traced>) {
+    use gmsol_store::{accounts as sa, instruction as si};
+    use gmsol_utils::oracle::PriceProviderKind;
+    let _ = (seed, shard);
+    let mut w = World::bootstrap_store_with_trace(3);
+    w.bootstrap_oracle();
+    let btc = w.add_token("BTC", 8, 2, true);
+    let sol = w.add_token("SOL", 9, 4, false);
+    let usdc = w.add_token("USDC", 6, 6, false);
+    let mk = w.add_market(btc, sol, usdc);
+    let (keeper, admin, store, token_map) = (w.keeper, w.admin, w.store, w.token_map);
+    let market = w.markets[mk].market;
+    let sol_mint = w.tokens[sol].mint;
+    let mut go = |w: &mut World, ix: Instruction, signers: &[Pubkey]| {
+        let _ = w.send(&[ix], signers);
+    };
+    go(&mut w, six(sa::ToggleFeature { authority: keeper, store }, si::ToggleFeature { domain: "deposit".into(), action: "create".into(), enable: false }), &[keeper]);
+    go(&mut w, six(sa::ToggleFeature { authority: keeper, store }, si::ToggleFeature { domain: "deposit".into(), action: "create".into(), enable: true }), &[keeper]);
+    go(&mut w, six(sa::ToggleTokenConfig { authority: keeper, store, token_map }, si::ToggleTokenConfig { token: sol_mint, enable: false }), &[keeper]);
+    go(&mut w, six(sa::ToggleTokenConfig { authority: keeper, store, token_map }, si::ToggleTokenConfig { token: sol_mint, enable: true }), &[keeper]);
+    go(&mut w, six(sa::ToggleTokenConfig { authority: keeper, store, token_map }, si::ToggleTokenPriceAdjustment { token: sol_mint, enable: true }), &[keeper]);
+    go(&mut w, six(sa::SetExpectedProvider { authority: keeper, store, token_map }, si::SetExpectedProvider { token: sol_mint, provider: PriceProviderKind::Pyth as u8 }), &[keeper]);
+    go(&mut w, six(sa::SetExpectedProvider { authority: keeper, store, token_map }, si::SetExpectedProvider { token: sol_mint, provider: PriceProviderKind::ChainlinkDataStreams as u8 }), &[keeper]);
+    go(
+        &mut w,
+        six(
+            sa::SetFeedConfig { authority: keeper, store, token_map },
+            si::SetFeedConfigV2 { token: sol_mint, provider: PriceProviderKind::ChainlinkDataStreams as u8, feed: None, timestamp_adjustment: Some(1), max_deviation_factor: Some(UNIT / 100) },
+        ),
+        &[keeper],
+    );
+    go(&mut w, six(sa::ToggleMarket { authority: keeper, store, market }, si::ToggleMarket { enable: false }), &[keeper]);
+    go(&mut w, six(sa::ToggleMarket { authority: keeper, store, market }, si::ToggleMarket { enable: true }), &[keeper]);
+    go(&mut w, six(sa::ToggleGTMinting { authority: keeper, store, market }, si::ToggleGtMinting { enable: true }), &[keeper]);
+    go(&mut w, six(sa::InsertConfig { authority: keeper, store }, si::InsertAddress { key: "holding".into(), address: hostsvm::key("new-holding") }), &[keeper]);
+    go(&mut w, six(sa::InsertConfig { authority: keeper, store }, si::InsertOrderFeeDiscountForReferredUser { factor: UNIT / 10 }), &[keeper]);
+    // idempotent feed update
+    {
+        let ts = w.svm.clock.unix_timestamp;
+        let e18 = crate::sim::E18;
+        let r = w.report_for(sol, vcommon::big::b(149 * e18), vcommon::big::b(150 * e18), vcommon::big::b(151 * e18), ts);
+        let ix = w.update_feed_ix(sol, r.compressed_full_report(), true, keeper);
+        go(&mut w, ix, &[keeper]);
+    }
+    // config buffer by the keeper
+    {
+        let buffer = hostsvm::key("c19-cfgbuf");
+        let init = six(
+            sa::InitializeMarketConfigBuffer { authority: keeper, store, buffer, system_program: anchor_lang::system_program::ID },
+            si::InitializeMarketConfigBuffer { expire_after_secs: 600 },
+        );
+        let _ = w.send(&[init], &[keeper, buffer]);
+        go(
+            &mut w,
+            six(
+                sa::PushToMarketConfigBuffer { authority: keeper, buffer, system_program: anchor_lang::system_program::ID },
+                si::PushToMarketConfigBuffer { new_configs: vec![gmsol_store::states::market::config::EntryArgs { key: "swap_fee_receiver_factor".into(), value: UNIT / 3 }] },
+            ),
+            &[keeper],
+        );
+        go(&mut w, six(sa::UpdateMarketConfigWithBuffer { authority: keeper, store, market, buffer }, si::UpdateMarketConfigWithBuffer {}), &[keeper]);
+        go(&mut w, six(sa::SetMarketConfigBufferAuthority { authority: keeper, buffer }, si::SetMarketConfigBufferAuthority { new_authority: keeper }), &[keeper]);
+        go(&mut w, six(sa::CloseMarketConfigBuffer { authority: keeper, buffer, receiver: keeper }, si::CloseMarketConfigBuffer {}), &[keeper]);
+    }
+    // virtual inventories
+    {
+        let vi = pda::find_virtual_inventory_for_swaps_address(&store, 0, &STORE_PID).0;
+        go(
+            &mut w,
+            six(
+                sa::CreateVirtualInventoryForSwaps { authority: keeper, store, virtual_inventory: vi, system_program: anchor_lang::system_program::ID },
+                si::CreateVirtualInventoryForSwaps { index: 0, long_amount_decimals: 9, short_amount_decimals: 6 },
+            ),
+            &[keeper],
+        );
+        go(&mut w, six(sa::JoinVirtualInventoryForSwaps { authority: keeper, store, token_map, virtual_inventory: vi, market }, si::JoinVirtualInventoryForSwaps {}), &[keeper]);
+        go(&mut w, six(sa::LeaveVirtualInventoryForSwaps { authority: keeper, store, virtual_inventory: vi, market }, si::LeaveVirtualInventoryForSwaps {}), &[keeper]);
+        let index_token = w.tokens[btc].mint;
+        let vip = pda::find_virtual_inventory_for_positions_address(&store, &index_token, &STORE_PID).0;
+        go(
+            &mut w,
+            six(
+                sa::CreateVirtualInventoryForPositions { authority: keeper, store, index_token, virtual_inventory: vip, system_program: anchor_lang::system_program::ID },
+                si::CreateVirtualInventoryForPositions {},
+            ),
+            &[keeper],
+        );
+        go(&mut w, six(sa::JoinOrLeaveVirtualInventoryForPositions { authority: keeper, store, virtual_inventory: vip, market }, si::JoinVirtualInventoryForPositions {}), &[keeper]);
+        go(&mut w, six(sa::JoinOrLeaveVirtualInventoryForPositions { authority: keeper, store, virtual_inventory: vip, market }, si::LeaveVirtualInventoryForPositions {}), &[keeper]);
+        go(&mut w, six(sa::DisableVirtualInventory { authority: keeper, store, virtual_inventory: vi }, si::DisableVirtualInventory {}), &[keeper]);
+        let store_wallet = w.store_wallet();
+        go(&mut w, six(sa::CloseVirtualInventory { authority: keeper, store, store_wallet, virtual_inventory: vi }, si::CloseVirtualInventory {}), &[keeper]);
+    }
+    // roles and authorities (admin)
+    let pal = hostsvm::key("c19-pal");
+    w.svm.airdrop(&pal, 10 * LAMPORTS);
+    let _ = w.grant(&pal, RoleKey::ORDER_KEEPER);
+    let _ = w.revoke(&pal, RoleKey::ORDER_KEEPER);
+    go(&mut w, six(sa::DisableRole { authority: admin, store }, si::DisableRole { role: RoleKey::MIGRATION_KEEPER.into() }), &[admin]);
+    go(&mut w, six(sa::UpdateLastRestartedSlot { authority: admin, store }, si::UpdateLastRestartedSlot {}), &[admin]);
+    go(&mut w, six(sa::TransferReceiver { authority: admin, store, next_receiver: pal }, si::TransferReceiver {}), &[admin]);
+    go(&mut w, six(sa::AcceptReceiver { next_receiver: pal, store }, si::AcceptReceiver {}), &[pal]);
+    go(&mut w, six(sa::TransferStoreAuthority { authority: admin, store, next_authority: pal }, si::TransferStoreAuthority {}), &[admin]);
+    go(&mut w, six(sa::AcceptStoreAuthority { next_authority: pal, store }, si::AcceptStoreAuthority {}), &[pal]);
+    // the env's admin is the ORIGINAL admin for replays of transactions recorded before the transfer;
+    // revocations in replays run on the recorded pre-states, where `admin` was still the authority.
+    let env = Env { store, admin };
+    let traces = w.take_trace();
+    (env, traces)
+}
+
 fn run_shard(args: &Args, shard: u64, m: &mut Monitor) {
     let mut budget: BTreeMap<&'static str, u32> = BTreeMap::new();
     // Source 1: bootstrap + exchange workload
@@ -369,6 +483,14 @@ fn run_shard(args: &Args, shard: u64, m: &mut Monitor) {
     m.add("traced_transactions", traces.len() as u64);
     for t in &traces {
         replay(m, &env, t, &mut budget, shard);
+    }
+    // Source 3: admin / configuration / virtual-inventory / authority-transfer scenarios
+    if shard % 4 == 0 {
+        let (env2, traces2) = extra_scenarios(args.seed, shard);
+        m.add("traced_transactions", traces2.len() as u64);
+        for t in &traces2 {
+            replay(m, &env2, t, &mut budget, shard);
+        }
     }
     for (name, n) in budget {
         m.max(&format!("max_variants_runs_{name}"), n as u64);
